@@ -46,6 +46,10 @@ func init() {
 			scs = append(scs, sc{"Get‖" + noop + ";Get", plain, nil, [][]string{{"load 1 val"}, {noop, "load 1 val"}}})
 		}
 		scs = append(scs, sc{"BulkGet‖cc;Get", plain, nil, [][]string{{"bulk 1,2 full"}, {"cc 2", "load 2 val"}}})
+		// a failed load whose record was legitimately dropped by a write must not disturb the next flight of the key
+		for _, o := range []string{"err", "panic"} {
+			scs = append(scs, sc{"Get(" + o + ")‖Invalidate;Get‖Get", plain, nil, [][]string{{"load 1 " + o}, {"inv 1", "load 1 val"}, {"load 1 val"}}})
+		}
 		for _, s := range scs {
 			// coarse: only the loader's environment points are preemptible -> all interleavings at that granularity
 			var need []string
